@@ -26,6 +26,9 @@ CHECKS = {
  'C13': dict(cat='exploration', sec='4/C13', tech='runtime monitoring: one watched child process of the real CLI per fuzzed input (type grammar, directive grammar+mutation, argv); exit-status/stderr/panic-dump/hang monitor',
    text='Thousands of generated inputs over the exotic part of the Go type grammar, mutated directives at every directive position and random argument vectors are each run in their own CLI process under a watchdog; exit status must be 0 or 1, no Go panic dump, failures carry a diagnostic naming the declaration.',
    note='hang = no termination within 60 s (300x normal); non-compiling generated inputs are dropped before goverter sees them'),
+ 'C14': dict(cat='exploration', sec='4/C14', tech='runtime monitoring: enumerated signature shapes, each one real CLI run compared with a role-classification model; accepted shapes compiled against their declaration and executed with distinct argument values (routing monitor)',
+   text='Converter methods, function variables, extend, map|FUNC, default and struct-method sources are enumerated over roles x results x naming (0-3 parameters; thorough: completely): acceptance must equal the documented classification, accepted shapes must compile against the declared interface/variable and route every context value to the custom function of its type while converting the source.',
+   note='classification model from docs/reference/signature.md; contexts have pairwise distinct types'),
  'C15': dict(cat='exploration', sec='4/C15', tech='runtime monitoring: real CLI under strace in scratch module trees; written-path set, package clause, open/mkdir mode arguments vs an independent layout model',
    text='Seeded layout scenarios (output:file default/relative/parent/absolute/@cwd/same-package x output:package absent/PATH/PATH:NAME/:NAME x existing target package x shared files x invocation from root, sub-directory, -cwd) are run through the real CLI; the set of written paths, each package clause and the requested modes must equal the layout model, conflicting shared files must be rejected, and the module must build.',
    note='layout model written from docs/reference/output.md; inconsistent output:package PATH and :NAME compile edge cases are not judged'),
